@@ -835,6 +835,7 @@ let handle_accept fields =
       if impl_ok <> m then mismatch "accept" input ("diagnostics=" ^ n) (if m then "accepted" else "rejected");
       if not impl_ok then begin
         if Accept.k_c04_rejected (nat_of_int ii) then known_hit "accept" (c04_key ii) input
+        else if Accept.k_ctx_empty (nat_of_int cc) (nat_of_int ii) then known_hit "accept" "C16.empty_stmt_after_item" input
         else oracle_fail "accept" input ("FAIL C04: " ^ n ^ " syntax diagnostics on a statement of the reference grammar")
       end
     end
@@ -850,7 +851,8 @@ let handle_accept fields =
         mismatch "accept" input ("top=" ^ t ^ " block=" ^ b) (Printf.sprintf "top=%b block=%b" mt mb);
       if t <> "1" || b <> "1" then begin
         if Accept.is_let ni || Accept.is_let nj then known_hit "accept" "C16.let_context" input
-        else if Accept.k_c16 ni nj then known_hit "accept" "C16.assignment_glues_operator" input
+        else if b = "1" && Accept.k_empty_after_item ni nj then known_hit "accept" "C16.empty_stmt_after_item" input
+        else if Accept.ends_with_assignment ni && Accept.starts_with_operator nj then known_hit "accept" "C16.assignment_glues_operator" input
         else if t = "1" && Accept.is_anon_block nj then known_hit "accept" "C16.trailing_anon_block" input
         else oracle_fail "accept" input "FAIL C16: the concatenation does not parse to the statements of its parts"
       end
@@ -915,7 +917,9 @@ let handle_inc fields =
               | _ -> raise (Parse "content")) (split_on ';' contents) in
       let content d f = match L.assoc_opt (d, f) table with Some its -> its | None -> [] in
       let evs = Include.expand fsys search env content (Accept.ids |> fun _ -> nat_of_int 10) (parse_inc_items main) in
-      let marks = L.filter_map (function Include.EMark t -> Some ("M" ^ string_of_n t) | _ -> None) evs in
+      (* a file included twice declares its marker twice: the symbol table lists it once *)
+      let rec dedup seen = function [] -> [] | x :: r -> if L.mem x seen then dedup seen r else x :: dedup (x :: seen) r in
+      let marks = dedup [] (L.filter_map (function Include.EMark t -> Some ("M" ^ string_of_n t) | _ -> None) evs) in
       let unread = L.filter_map (function
           | Include.EUnreadable (Include.RFile (d, f)) -> Some ("XF" ^ string_of_n d ^ ":" ^ string_of_n f)
           | Include.EUnreadable (Include.RAsGiven f) -> Some ("XG" ^ string_of_n f)
